@@ -42,6 +42,8 @@ SegmentItems(out, inputs) ==
             LET s == dec.lines[g][k]
                 where == [gen |-> out.gen, genLine |-> g - 1, genCol |-> s.genCol, seg |-> s]
             IN (IF s.genCol < 0 \/ s.genCol > out.lineLens[g] THEN {SItem("segment-beyond-generated-text", "generated column outside the line", where)} ELSE {})
+               \cup (IF s.n = 5 /\ g \in DOMAIN out.identStarts /\ ~\E j \in DOMAIN out.identStarts[g] : out.identStarts[g][j] = s.genCol
+                     THEN {SItem("named-segment-not-on-identifier", "a named segment does not sit on the start of an identifier of the generated text", where)} ELSE {})
                \cup (IF k > 1 /\ dec.lines[g][k - 1].genCol > s.genCol THEN {SItem("segments-unordered", "segments of a line are not in ascending order", where)} ELSE {})
                \cup (IF s.n < 4 THEN {}
                      ELSE IF s.src < 0 \/ s.src >= Len(map.sources) THEN {SItem("bad-source-index", "source index outside `sources`", where)}
